@@ -52,7 +52,7 @@ Proof. exact routing_request_token. Qed.
 Theorem C12_first_target : forall cl cfg st values cho shufp k t s rq,
   cho_ok cho -> shuf_ok shufp -> cluster_ok cl -> sorted_weak (c_ring cl) -> keys_ok cl ->
   st_table st = Some k -> Tablets.find_table (c_tablets cl) k = None ->
-  PartKey.ps_calculate_token (st_part st) (st_ncols st) (st_wire st) values = Ok (Some t) ->
+  PartKey.ps_calculate_token true (st_part st) (st_ncols st) (st_wire st) values = Ok (Some t) ->
   pol_token_aware (ex_pol cfg) = true ->
   ks_lookup (c_keyspaces cl) (fst k) = Some s ->
   routing_request st cfg values = Ok rq ->
@@ -98,7 +98,7 @@ Theorem C12_tablets : forall cl cfg st values cho shufp k t s rq tb,
   cho_ok cho -> shuf_ok shufp -> cluster_ok cl -> sorted_weak (c_ring cl) -> keys_ok cl ->
   tablets_coherent cl ->
   st_table st = Some k -> Tablets.lookup_tablet (c_tablets cl) k t = Some tb ->
-  PartKey.ps_calculate_token (st_part st) (st_ncols st) (st_wire st) values = Ok (Some t) ->
+  PartKey.ps_calculate_token true (st_part st) (st_ncols st) (st_wire st) values = Ok (Some t) ->
   pol_token_aware (ex_pol cfg) = true ->
   ks_lookup (c_keyspaces cl) (fst k) = Some s ->
   routing_request st cfg values = Ok rq ->
@@ -208,6 +208,77 @@ Theorem C12_conn_accept_complete : forall cho p want c, pool_wf p ->
   accept_conn_shard p want (conn_shard c) = true.
 Proof. exact accept_conn_shard_complete. Qed.
 
+(* ---- LWT: the first attempt is deterministic ------------------------------------------------------
+   for a request routed as LWT (confirmed LWT or Serial consistency) the first frame goes, for
+   EVERY oracle, to THE first live replica -- in ring order from the token for ring tables, in the
+   tablet's own order for tablet tables -- of the first location criterion (preferred rack,
+   preferred datacenter, anywhere) that has one; on the owning shard's connection when present *)
+Theorem C12_lwt_first_target : forall cl cfg st values cho shufp rq x rest,
+  cho_ok cho -> shuf_ok shufp -> cluster_ok cl -> sorted_weak (c_ring cl) -> keys_ok cl ->
+  routing_request st cfg values = Ok rq -> rq_lwt rq = true ->
+  replica_cands cl cfg rq (route_source cl (ex_pol cfg) rq (st_table st)) = x :: rest ->
+  exists c, route cl cho shufp cfg st values = Ok (Some (fst x, c)) /\
+    In c (pool_conns (c_pool cl (fst x))) /\
+    (pool_sharder (c_pool cl (fst x)) <> None ->
+     pool_has_shard (c_pool cl (fst x)) (shard_u16 (snd x)) = true -> conn_shard c = shard_u16 (snd x)).
+Proof. exact lwt_first_target. Qed.
+
+Theorem C12_lwt_cands_tablet : forall cl (rq : request) k t c, rq_lwt rq = true ->
+  g_filtered (c_rackf cl) (c_enabled cl) (c_connected cl) (tablet_source (c_tablets cl) k t) c (rq_lwt rq) =
+  filter (fun x => c_alive cl (fst x) && crit_ok (c_rackf cl) c (fst x))
+         (tablet_reps (c_tablets cl) k t (crit_dc c)).
+Proof. exact lwt_cands_tablet. Qed.
+
+Theorem C12_lwt_cands_ring : forall cl (rq : request) t s c,
+  rq_lwt rq = true -> sorted_weak (c_ring cl) -> nts_keys_ok s ->
+  g_filtered (c_rackf cl) (c_enabled cl) (c_connected cl) (ring_source cl t s) c (rq_lwt rq) =
+  filter (fun x => c_alive cl (fst x) && crit_ok (c_rackf cl) c (fst x))
+    (map (fun n => (n, computed_shard (c_pool cl n) t))
+       (filter (fun n => mem n (spec_replicas (c_dcf cl) (c_rackf cl) (c_ring cl) t s (crit_dc c)))
+               (uniq (ring_range (c_ring cl) t)))).
+Proof. exact lwt_cands_ring. Qed.
+
+(* ---- tablets without a usable replica: no fallback to the ring -------------------------------
+   no live permitted replica in the replica source (for a tablets table: no tablet covers the token,
+   or the covering tablet names only unknown / dead / foreign-datacenter hosts) => the first attempt
+   goes to a live node of the first node group that has one (any of its connections), or nowhere *)
+Theorem C12_no_replica_nodes : forall cl cfg st values cho shufp rq,
+  cho_ok cho -> shuf_ok shufp -> cluster_ok cl -> sorted_weak (c_ring cl) -> keys_ok cl ->
+  routing_request st cfg values = Ok rq ->
+  replica_cands cl cfg rq (route_source cl (ex_pol cfg) rq (st_table st)) = [] ->
+  match route_obs cl cho shufp cfg st values with
+  | Ok (Some (n, sh)) => In n (node_cands cl cfg rq) /\ pool_has_shard (c_pool cl n) sh = true
+  | Ok None => node_cands cl cfg rq = []
+  | Err _ => False
+  end.
+Proof. exact tablet_no_replica_nodes. Qed.
+
+Theorem C12_tablets_uncovered : forall cl cfg rq k t,
+  tablets_coherent cl -> Tablets.lookup (c_tablets cl) k t = None ->
+  replica_cands cl cfg rq (Some (tablet_source (c_tablets cl) k t)) = [].
+Proof. exact tablet_uncovered_no_cands. Qed.
+
+(* composed with C15_latest_wins: right after a payload that names hosts the driver does not know,
+   the owners of a token of its range are exactly the payload's KNOWN hosts, in payload order *)
+Theorem C12_tablets_unknown_hosts : forall cl pre k a b raw known tok s,
+  Forall Tablets.op_i64 (pre ++ [Tablets.Learn k a b raw known]) ->
+  Tablets.run (pre ++ [Tablets.Learn k a b raw known]) = Some (c_tablets cl) ->
+  Tablets.spec_payload_ok a b raw = true -> a < tok <= b ->
+  owners cl k tok s =
+  map (fun r => (Tablets.host (fst r), snd r))
+      (Tablets.spec_resolved known (map (fun hs => (fst hs, Z.to_N (snd hs))) raw)).
+Proof. exact owners_after_learn. Qed.
+
+(* ---- the refiller: excess connections are trimmed, and the acceptor of the refiller tie --------- *)
+Theorem C12_excess_trimmed : forall size evs,
+  rf_is_full size (pool_run size evs) = true -> rf_excess (pool_run size evs) = [].
+Proof. exact pool_run_trimmed. Qed.
+
+Theorem C12_refill_ok_sound : forall size evs final, refill_ok size evs final = true ->
+  map conn_shard (concat (rf_conns (pool_run size evs))) = final /\
+  (rf_is_full size (pool_run size evs) = true -> rf_excess (pool_run size evs) = []).
+Proof. exact refill_ok_sound. Qed.
+
 (* the well-formedness test the driver runs on its input is sound *)
 Theorem C12_pool_wfb_sound : forall p, pool_wfb p = true -> pool_wf p.
 Proof. exact pool_wfb_sound. Qed.
@@ -263,7 +334,7 @@ Qed.
 
 (* on the ring the token of key 7 is owned by node 1 (datacenter 1) and node 3 (datacenter 2) *)
 Example C12_ex_ring :
-  PartKey.ps_calculate_token Murmur.PMurmur3 1 [0%N] ex_values = Ok (Some 1634052884888577606) /\
+  PartKey.ps_calculate_token true Murmur.PMurmur3 1 [0%N] ex_values = Ok (Some 1634052884888577606) /\
   spec_replicas ex_dcf ex_rackf ex_ring 1634052884888577606 (NTS [(1%N, 1%nat); (2%N, 1%nat)]) None = [1; 3]%N /\
   spec_shard_of 4 12 1634052884888577606 = 3%N /\
   (* preferring datacenter 1: node 1, on the connection bound to shard 3 *)
@@ -333,6 +404,49 @@ Example C12_ex_defs :
   pool_wfb (PoolSharded 2 0 [[]; []]) = false /\ pool_wfb (PoolNotSharded []) = false.
 Proof. repeat split; vm_compute; reflexivity. Qed.
 
+(* LWT on the example cluster: deterministic first targets; unknown hosts; the refiller acceptor *)
+Definition ex_lwt (tb : N) : statement := mkStmt (Some (0%N, tb)) 1 [0%N] Murmur.PMurmur3 true.
+Definition ex_cho2 (site len : nat) : nat := pred len.
+Example C12_ex_lwt :
+  (* ring table, no preference: ring order from the token is node 1 then node 3 *)
+  route ex_cl ex_cho ex_shuf (ex_cfg PAny) (ex_lwt 0) ex_values = Ok (Some (1%N, mkConn 3 (Some (3%N, 4%N, 12%N)))) /\
+  route ex_cl ex_cho2 (fun _ l => rev l) (ex_cfg PAny) (ex_lwt 0) ex_values = Ok (Some (1%N, mkConn 3 (Some (3%N, 4%N, 12%N)))) /\
+  (* without LWT the other oracle picks the other replica *)
+  route ex_cl ex_cho2 (fun _ l => rev l) (ex_cfg PAny) (ex_stmt 0) ex_values = Ok (Some (3%N, mkConn 0 None)) /\
+  (* tablet table: tablet order is node 2 then node 3; preferring datacenter 2 gives node 3 *)
+  route ex_cl ex_cho2 (fun _ l => rev l) (ex_cfg PAny) (ex_lwt 1) ex_values = Ok (Some (2%N, mkConn 1 (Some (0%N, 2%N, 0%N)))) /\
+  route ex_cl ex_cho ex_shuf (ex_cfg (PDc 2)) (ex_lwt 1) ex_values = Ok (Some (3%N, mkConn 0 None)) /\
+  route_ok ex_cl (ex_cfg PAny) (ex_lwt 0) ex_values (Some (3%N, 0%N)) = false /\
+  route_ok ex_cl (ex_cfg PAny) (ex_stmt 0) ex_values (Some (3%N, 0%N)) = true /\
+  route_ok ex_cl (ex_cfg PAny) (ex_lwt 1) ex_values (Some (3%N, 0%N)) = false.
+Proof. repeat split; vm_compute; reflexivity. Qed.
+
+Example C12_ex_unknown_host :
+  let h := Tablets.cluster_ops [] [Tablets.CRefresh ex_schema ex_known;
+             Tablets.CLearn (0%N, 1%N) 0 100 [(9%N, 1); (3%N, 0); (3%N, 5)]] in
+  match Tablets.run h with
+  | Some s =>
+      (* host 9 is unknown: skipped; host 3 listed twice stays twice; outside the range nothing *)
+      tab_reps (Tablets.lookup s (0%N, 1%N) 50) = [(3%N, 0%N); (3%N, 5%N)] /\
+      tab_reps (Tablets.lookup s (0%N, 1%N) 101) = []
+  | None => False
+  end.
+Proof. vm_compute. split; reflexivity. Qed.
+
+Example C12_ex_refill :
+  let c (i s : N) := mkConn i (Some (s, 2, 0)%N) in
+  (* plain-port connections: a second one to shard 0 waits in the excess list and is trimmed when
+     the pool becomes full; PerHost keeps the first two whatever their shards *)
+  refill_ok (PerShard 1) [EvReady (c 1%N 0%N) false; EvReady (c 2%N 0%N) false; EvReady (c 3%N 1%N) false] [0; 1]%N = true /\
+  refill_dropped (PerShard 1) [EvReady (c 1%N 0%N) false; EvReady (c 2%N 0%N) false; EvReady (c 3%N 1%N) false] = 1%nat /\
+  rf_excess (pool_run (PerShard 1) [EvReady (c 1%N 0%N) false; EvReady (c 2%N 0%N) false]) = [c 2%N 0%N] /\
+  refill_ok (PerShard 1) [EvReady (c 1%N 0%N) false; EvReady (c 2%N 0%N) false; EvReady (c 3%N 1%N) false] [0; 0; 1]%N = false /\
+  refill_ok (PerHost 2) [EvReady (c 1%N 0%N) false; EvReady (c 2%N 0%N) false; EvReady (c 3%N 1%N) false] [0; 0]%N = true /\
+  refill_ok (PerHost 2) [EvReady (c 1%N 0%N) false; EvReady (c 2%N 0%N) false; EvBroken (c 1%N 0%N); EvReady (c 3%N 1%N) false] [0; 1]%N = true /\
+  refill_ok (PerHost 2) [EvReady (c 1%N 0%N) false; EvReady (c 2%N 0%N) false; EvBroken (c 1%N 0%N); EvReady (c 3%N 1%N) false] [0; 0]%N = false /\
+  refill_ok (PerShard 1) [EvReady (c 1%N 0%N) false; EvBroken (c 1%N 0%N)] [] = true.
+Proof. repeat split; vm_compute; reflexivity. Qed.
+
 Print Assumptions C12_token.
 Print Assumptions C12_first_target.
 Print Assumptions C12_shard_u16.
@@ -345,6 +459,14 @@ Print Assumptions C12_model_accepted.
 Print Assumptions C12_route_prop.
 Print Assumptions C12_plan_ring.
 Print Assumptions C12_plan_properties.
+Print Assumptions C12_lwt_first_target.
+Print Assumptions C12_lwt_cands_tablet.
+Print Assumptions C12_lwt_cands_ring.
+Print Assumptions C12_no_replica_nodes.
+Print Assumptions C12_tablets_uncovered.
+Print Assumptions C12_tablets_unknown_hosts.
+Print Assumptions C12_excess_trimmed.
+Print Assumptions C12_refill_ok_sound.
 Print Assumptions C12_conn_accept_sound.
 Print Assumptions C12_conn_accept_complete.
 Print Assumptions C12_pool_wfb_sound.
